@@ -217,6 +217,6 @@ proofs/NetProofs.vos proofs/NetProofs.vok proofs/NetProofs.required_vos: proofs/
 properties/C13.vo properties/C13.glob properties/C13.v.beautified properties/C13.required_vo: properties/C13.v model/NetModel.vo proofs/NetProofs.vo
 properties/C13.vio: properties/C13.v model/NetModel.vio proofs/NetProofs.vio
 properties/C13.vos properties/C13.vok properties/C13.required_vos: properties/C13.v model/NetModel.vos proofs/NetProofs.vos
-properties/C01.vo properties/C01.glob properties/C01.v.beautified properties/C01.required_vo: properties/C01.v model/NetModel.vo proofs/NetProofs.vo
-properties/C01.vio: properties/C01.v model/NetModel.vio proofs/NetProofs.vio
-properties/C01.vos properties/C01.vok properties/C01.required_vos: properties/C01.v model/NetModel.vos proofs/NetProofs.vos
+properties/C01.vo properties/C01.glob properties/C01.v.beautified properties/C01.required_vo: properties/C01.v model/NetModel.vo model/Check13.vo proofs/NetProofs.vo
+properties/C01.vio: properties/C01.v model/NetModel.vio model/Check13.vio proofs/NetProofs.vio
+properties/C01.vos properties/C01.vok properties/C01.required_vos: properties/C01.v model/NetModel.vos model/Check13.vos proofs/NetProofs.vos
